@@ -9,6 +9,7 @@ CONSTANTS
   MaxAdds = 4
   MaxEnds = 2
   AtomicAdd = TRUE
+  ClosedRefuses = TRUE
   SplitGet = FALSE
   RecheckOnStore = TRUE
   StaleTimers = TRUE
